@@ -126,6 +126,7 @@ def write_source(path, src, keep_mtime):
     inspect.getsource of the old version -- whoever trusts linecache.checkcache then sees the OLD text."""
     import linecache
     old = os.stat(path) if keep_mtime and os.path.exists(path) else None
+    os.makedirs(os.path.dirname(path), exist_ok=True)
     with open(path, "w") as fh:
         fh.write(src)
     if old is not None:
@@ -166,6 +167,8 @@ def describe(v):
 
 def D(v):
     """what the generated functions return for an argument: the value itself, or the description of a callable"""
+    if isinstance(v, (Memory, Holder)):
+        return ("jobj", canon(v))
     return ("callable", describe(v)) if callable(v) and not isinstance(v, (EqAll, EqNone, CmpRaises,
                                                                            CmpElementwise)) else v
 
@@ -175,7 +178,7 @@ ODD = {"eqall": EqAll(), "eqnone": EqNone(), "raises": CmpRaises(), "elementwise
 
 def is_literal(v):
     (t, x), = v.items()
-    if t in ("o", "np", "c"):
+    if t in ("o", "np", "c", "j"):
         return False
     if t in ("t", "l", "S", "F"):
         return all(is_literal(e) for e in x)
@@ -184,8 +187,35 @@ def is_literal(v):
     return True
 
 
+class Holder(object):
+    """an estimator-like object that holds a Memory"""
+    def __init__(self, memory):
+        self.memory = memory
+        self.alpha = 1
+
+
+def _aux_g(x):
+    return x
+
+
+JOBJ = {}
+
+
+def jobjects(base):
+    """joblib's OWN objects used as argument values: a Memory, a MemorizedFunc of it, an object holding a Memory"""
+    if not JOBJ:
+        m = Memory(base + "_aux", verbose=0)
+        JOBJ.update({"memory": m, "memfunc": m.cache(_aux_g, verbose=1), "holder": Holder(m)})
+    return JOBJ
+
+
+AUX_BASE = [None]
+
+
 def dec(v):
     (t, x), = v.items()
+    if t == "j":
+        return jobjects(AUX_BASE[0])[x]
     if t == "o":
         return ODD[x]
     if t == "c":
@@ -231,6 +261,10 @@ def canon(v):
     t = type(v).__name__
     if t in ("EqAll", "EqNone", "CmpRaises", "CmpElementwise"):
         return "odd:" + t          # never compared with ==
+    if isinstance(v, Memory):
+        return "jobj:Memory:%s" % v.location
+    if isinstance(v, Holder):
+        return "jobj:Holder(%s)" % canon(v.memory)
     if callable(v):
         return "callable:" + describe(v)
     if t == "ndarray":
@@ -549,6 +583,7 @@ def main():
     if sc.get("pads"):
         sc["_pad_now"] = sc["pads"][job.get("segment", 0) % len(sc["pads"])]
     cache_arg = cache_argument(job, sc)
+    AUX_BASE[0] = job["cache"]
     mem = Memory(cache_arg, backend="verif-objstore" if sc.get("backend") == "objstore" else "local",
                  verbose=sc.get("verbose", 0), mmap_mode=sc.get("mmap_mode"), compress=tuple(sc["compress"]) if isinstance(sc["compress"], list)
                  else sc["compress"])
@@ -698,6 +733,19 @@ def main():
                     elif how == "roundtrip":
                         wraps[k] = _p.loads(_p.dumps(w))
                     res["o"] = "skip"
+                elif kind == "jlog":
+                    # the joblib objects used as arguments emit their first warnings (Memory.clear / MemorizedFunc.clear
+                    # with warn=True): being logged through must not change what they hash to
+                    import logging
+                    logging.disable(logging.CRITICAL)
+                    try:
+                        jo = jobjects(AUX_BASE[0])
+                        jo["memory"].clear(warn=True)
+                        jo["memfunc"].clear(warn=True)
+                        jo["holder"].memory.warn("holder logs")
+                    finally:
+                        logging.disable(logging.NOTSET)
+                    res["o"] = "skip"
                 elif kind == "recache":
                     # RE-DECORATION of an already cached function, with other options or with none:
                     # memory.cache(cached_g, ignore=...) / memory.cache(cached_g)
@@ -767,7 +815,8 @@ def main():
                     L = ev[2] if len(ev) > 2 else 0
                     wraps[wkey(k, L)] = mem_at(L).cache(
                         objs[k], ignore=list(sc["ignore"]),
-                        cache_validation_callback=Validator() if sc.get("callback", True) else None)
+                        cache_validation_callback=(joblib.expires_after(**sc["expires"]) if sc.get("expires") else
+                                                   Validator() if sc.get("callback", True) else None))
                     ign_of[wkey(k, L)] = list(sc["ignore"])
                     res["o"] = "done"
                     res["func_id"] = wraps[wkey(k, L)].func_id
@@ -814,7 +863,11 @@ def main():
                         last_entry[0] = (w.func_id, res["args_id"])
                     before = counts[k][0]
                     try:
-                        if kind == "call":
+                        if kind == "call" and cs.get("via") == "call":
+                            out = run_maybe_async(k, w.call(*pos, **kw))[0]      # MemorizedFunc.call: forced execution
+                            res["o"] = "val"
+                            res["v"] = canon(out)
+                        elif kind == "call":
                             out = run_maybe_async(k, mem.eval(w if sc.get("eval_wrapper", True) else objs[k], *pos, **kw)
                                               if via_eval else w(*pos, **kw))
                             res["o"] = "val"
